@@ -2,10 +2,10 @@
   Avt.Props.C17 — save/restore cursor round-trips the full context, per screen.
 
   Specification: `Avt.Spec.C17` (`ctxOf`, `defaultCtx`, `clampCtx`, `stepOK`, `touchesCtx`, …).
-  Helpers: Avt/Lemmas/C17Frame.lean, Avt/Lemmas/C17Step.lean.  All statements are unbounded (every
+  Helpers: Avt/Lemmas/C17Frame.lean, Avt/Lemmas/C17Step.lean, Avt/Lemmas/C17Multi.lean.  All statements are unbounded (every
   terminal state, every size, every `Function`).
 -/
-import Avt.Lemmas.C17Step
+import Avt.Lemmas.C17Multi
 
 namespace Avt.Props.C17
 open Avt Avt.Spec.C17
@@ -199,6 +199,70 @@ theorem C17_resize {t t' : Terminal} {cols rows : Nat} (hc : 1 ≤ cols) (hr : 1
     Bool.and_eq_true, decide_eq_true_eq]
   omega
 
+/-! ### lists of several DEC modes in one DECSET / DECRST -/
+
+/-- **Lists of DEC modes act left to right**, each member exactly like the single-mode sequence
+    (every list, every state): after `CSI ? ms h` the screen that is showing and the two saved
+    contexts are those of the fold `afterDecset t ms` — a `?1048`/`?1049` inside the list records
+    the column, row, pen, origin mode and auto-wrap mode in force at that point of the list
+    (`(afterDecset t ms).cur`, which is also what the state shows at the end), in the context of the
+    screen showing at that point; after `CSI ? ms l` they are those of `afterDecrst t ms`, and a
+    restore at the end of the list shows the context of the screen showing at that point. -/
+theorem C17_multi_mode {t t' : Terminal} {ms : List DecMode} (hi : TInv t = true) :
+    (t.execute (.decset ms) = some t' →
+        t'.activeBufferType = (afterDecset t ms).scr.active
+        ∧ t'.savedCtx = (afterDecset t ms).scr.saved
+        ∧ t'.alternateSavedCtx = (afterDecset t ms).scr.other
+        ∧ ctxOf t' = (afterDecset t ms).cur)
+    ∧ (t.execute (.decrst ms) = some t' →
+        t'.activeBufferType = (afterDecrst t ms).active
+        ∧ t'.savedCtx = (afterDecrst t ms).saved
+        ∧ t'.alternateSavedCtx = (afterDecrst t ms).other
+        ∧ lastRestoreOK ms t' = true) := by
+  constructor
+  · intro h
+    simp only [Terminal.execute] at h
+    have := decset_multi hi h
+    simp only [Screens.holds, Bool.and_eq_true, beq_iff_eq] at this
+    exact ⟨this.1.1.1, this.1.1.2, this.1.2, this.2⟩
+  · intro h
+    simp only [Terminal.execute] at h
+    have := decrst_multi h
+    simp only [Screens.holds, Bool.and_eq_true, beq_iff_eq] at this
+    exact ⟨this.1.1.1, this.1.1.2, this.1.2, this.2⟩
+
+/-- on a one-element list the fold is the single-mode rule `modeCtx` of `stepOK` -/
+theorem C17_multi_single (t : Terminal) (m : DecMode) :
+    ((afterDecset t [m]).scr.saved, (afterDecset t [m]).scr.other) = modeCtx t true m
+    ∧ ((afterDecrst t [m]).saved, (afterDecrst t [m]).other) = modeCtx t false m :=
+  ⟨afterDecset_single t m, afterDecrst_single t m⟩
+
+/-- **`CSI ? 1047 ; 1048 h` vs `CSI ? 1048 ; 1047 h`** on the primary screen: with the switch first the
+    save lands in the ALTERNATE screen's context and the primary screen's context is untouched (it is
+    parked as the other one); with the save first the primary screen's context gets it and the
+    alternate screen's (clamped into the screen) becomes active. -/
+theorem C17_multi_order {t t' : Terminal} (hi : TInv t = true) (hp : t.activeBufferType = .primary) :
+    (t.execute (.decset [.altScreenBuffer, .saveCursor]) = some t' →
+        t'.activeBufferType = .alternate ∧ t'.savedCtx = ctxOf t ∧ t'.alternateSavedCtx = t.savedCtx)
+    ∧ (t.execute (.decset [.saveCursor, .altScreenBuffer]) = some t' →
+        t'.activeBufferType = .alternate ∧ t'.savedCtx = clampCtx t.cols t.rows t.alternateSavedCtx
+        ∧ t'.alternateSavedCtx = ctxOf t) := by
+  constructor
+  · intro h
+    obtain ⟨h1, h2, h3, _⟩ := (C17_multi_mode hi).1 h
+    simpa [afterDecset, setOne, Screens.show, Screens.of, hp] using And.intro h1 (And.intro h2 h3)
+  · intro h
+    obtain ⟨h1, h2, h3, _⟩ := (C17_multi_mode hi).1 h
+    simpa [afterDecset, setOne, Screens.show, Screens.of, hp] using And.intro h1 (And.intro h2 h3)
+
+/-- what `stepOK` (hence `C17_step`, and the oracle on the implementation's states) says for a list of
+    two or more DEC modes: exactly the fold -/
+theorem C17_multi_step (t t' : Terminal) (m1 m2 : DecMode) (ms : List DecMode) :
+    stepOK t (.decset (m1 :: m2 :: ms)) t' = (afterDecset t (m1 :: m2 :: ms)).scr.holds t'
+    ∧ stepOK t (.decrst (m1 :: m2 :: ms)) t'
+        = ((afterDecrst t (m1 :: m2 :: ms)).holds t' && lastRestoreOK (m1 :: m2 :: ms) t') :=
+  ⟨rfl, rfl⟩
+
 /-! ### the hypotheses are satisfiable on a concrete non-trivial state
 
   5x3 terminal, bold pen, cursor at (row 1, col 2): save, move and change the pen, go to the
@@ -221,6 +285,58 @@ example : ∃ s t t', exRun = some (s, t, t') ∧ TInv s = true ∧ TInv t = tru
     ∧ t.savedCtx = ctxOf s ∧ t'.cursor.col = 2 ∧ t'.cursor.row = 1 ∧ t'.pen = s.pen
     ∧ stepOK t .decrc t' = true := by
   refine ⟨_, _, _, rfl, ?_⟩
+  decide
+
+/-! 10x4 terminal, bold pen, a save on the primary screen at (col 5, row 2); then the cursor moves to
+  (col 1, row 0) and the pen is reset, and one multi-mode sequence follows. -/
+
+def exBase : Option (Terminal × Terminal) := do
+  let t ← Terminal.new 10 4 none
+  let t ← t.execute (.sgr [.setBold])
+  let s ← t.execute (.cup 3 6)
+  let t ← s.execute .decsc
+  let t ← t.execute (.cup 1 2)
+  let t ← t.execute (.sgr [.reset])
+  pure (s, t)
+
+/-- `?1047;1048h`: the ALTERNATE screen's context gets the save, the primary's (5,2,bold) is untouched -/
+example : ∃ s t t', exBase = some (s, t) ∧ t.execute (.decset [.altScreenBuffer, .saveCursor]) = some t'
+    ∧ TInv t = true ∧ t.savedCtx = ctxOf s ∧ (ctxOf s).cursorCol = 5 ∧ (ctxOf s).cursorRow = 2
+    ∧ t'.activeBufferType = .alternate ∧ t'.savedCtx = ctxOf t ∧ (ctxOf t).cursorCol = 1
+    ∧ t'.alternateSavedCtx = ctxOf s
+    ∧ stepOK t (.decset [.altScreenBuffer, .saveCursor]) t' = true := by
+  refine ⟨_, _, _, rfl, rfl, ?_⟩
+  decide
+
+/-- `?1048;1047h`: the PRIMARY screen's context gets the save, the alternate's stays the default -/
+example : ∃ s t t', exBase = some (s, t) ∧ t.execute (.decset [.saveCursor, .altScreenBuffer]) = some t'
+    ∧ t'.activeBufferType = .alternate ∧ t'.savedCtx = defaultCtx ∧ t'.alternateSavedCtx = ctxOf t
+    ∧ t'.alternateSavedCtx ≠ ctxOf s
+    ∧ stepOK t (.decset [.saveCursor, .altScreenBuffer]) t' = true
+    -- the two orders are told apart: the result of one does not satisfy the specification of the other
+    ∧ stepOK t (.decset [.altScreenBuffer, .saveCursor]) t' = false := by
+  refine ⟨_, _, _, rfl, rfl, ?_⟩
+  decide
+
+/-- `?6;1048h` saves the homed cursor with origin mode on -/
+example : ∃ s t t', exBase = some (s, t) ∧ t.execute (.decset [.origin, .saveCursor]) = some t'
+    ∧ t'.savedCtx = { ctxOf t with cursorCol := 0, cursorRow := 0, originMode := true }
+    ∧ stepOK t (.decset [.origin, .saveCursor]) t' = true := by
+  refine ⟨_, _, _, rfl, rfl, ?_⟩
+  decide
+
+/-- `?1047;1048l` from the alternate screen (where (col 3, row 1) was saved): back on the primary
+    screen, THEN the restore — from the primary screen's context (5,2,bold) -/
+example : ∃ s t u t', exBase = some (s, t)
+    ∧ (do let u ← t.execute (.decset [.altScreenBuffer]); let u ← u.execute (.cup 2 4); u.execute .scosc) = some u
+    ∧ u.execute (.decrst [.altScreenBuffer, .saveCursor]) = some t'
+    ∧ TInv u = true ∧ u.savedCtx.cursorCol = 3
+    ∧ t'.activeBufferType = .primary ∧ t'.savedCtx = ctxOf s ∧ t'.alternateSavedCtx = u.savedCtx
+    ∧ t'.cursor.col = 5 ∧ t'.cursor.row = 2 ∧ t'.pen = s.pen
+    ∧ stepOK u (.decrst [.altScreenBuffer, .saveCursor]) t' = true
+    -- the second `?47l` of `?1047;47l` is a swap that does nothing
+    ∧ afterDecrst u [.altScreenBuffer, .altScreenBuffer] = afterDecrst u [.altScreenBuffer] := by
+  refine ⟨_, _, _, _, rfl, rfl, rfl, ?_⟩
   decide
 
 example : IsPlainSave .scosc ∧ IsPlainRestore (.decrst [.saveCursor]) := ⟨Or.inr (Or.inl rfl), Or.inr (Or.inr rfl)⟩
